@@ -2,6 +2,8 @@
 Driver for C01: one op per modelled function.
   parse  {"s": str}    -> "k:n/d k:n/d ..." (dict insertion order) | exception class name
   parts  {"s": str}    -> JSON [stoich, chg | null, [dropped prefixes], [dropped suffixes]] | exception class name
+  charge {"s": str}   -> `_get_charge(s)`: the integer | exception class name
+  leading_int {"s": str} -> `_get_leading_integer(s)`: JSON [m, rest]
   render {"ast": ...}  -> the written formula
   denote {"ast": ...}  -> composition of the AST (specification), same text format as `parse`
   roundtrip {"ast": ...} -> render TAB denote TAB parse(render)
@@ -26,6 +28,13 @@ def h : Handler := fun op j =>
     | .ok p => pure (Json.arr #[str p.stoich, (match p.chg with | none => Json.null | some c => str c),
         Json.arr (p.droppedPrefixes.map str).toArray, Json.arr (p.droppedSuffixes.map str).toArray]).compress
     | .error e => pure e.pyName
+  | "charge" => do
+    match getCharge (← getStr j "s").toList with
+    | .ok q => pure (toString q)
+    | .error e => pure e.pyName
+  | "leading_int" => do
+    let r := getLeadingInteger (← getStr j "s").toList
+    pure (Json.arr #[Json.num (r.1 : Nat), str r.2]).compress
   | "render" => do pure (← getFormula j "ast").renderStr
   | "denote" => do pure (showComp (← getFormula j "ast").composition)
   | "roundtrip" => do
